@@ -293,6 +293,7 @@ func run(c *Ctx) {
 	im.Hist("probe:negative-cost-updates")
 	im.Count("probe negative-cost updates", true)
 	tickTruth(c, im)
+	silentCrashHistory(c, im)
 	meshHistories(c, im)
 	Must(cf.Write())
 	Must(im.Write(c.Out))
@@ -477,6 +478,81 @@ func meshHistories(c *Ctx, im *Impl) {
 		im.Hist("mesh:history")
 		im.Count(fmt.Sprintf("mesh %d %v", t, rec), cuts > 0 && cycles)
 		if t == 0 {
+			im.Sample(rec)
+		}
+	}
+}
+
+// silentCrashHistory: a node at the end of a line vanishes without a trace (its neighbour's session stays
+// open and silent), comes back at once with a new epoch and keeps redialling, as a real backend does.  The
+// neighbour refuses the new sessions ("already connected") until its old session ends; the restarted node
+// has by then established each of them on the neighbour's first routing message and is told of the refusal
+// afterwards.  Once the old session is gone the next redial must succeed and every table must converge.
+func silentCrashHistory(c *Ctx, im *Impl) {
+	rounds := 1
+	if c.Thorough() {
+		rounds = 4
+	}
+	for round := 0; round < rounds; round++ {
+		consts := FastConsts()
+		consts.RouteUpdate = 100 * time.Millisecond
+		m := NewMesh(consts)
+		tp := &topo{names: []string{"m0", "m1", "m2"}, edges: map[[2]int]float64{{0, 1}: 1, {1, 2}: 1}}
+		alive := map[string]bool{"m0": true, "m1": true, "m2": true}
+		for _, id := range tp.names {
+			m.AddNode(id)
+		}
+		_, err := m.Connect("m0", "m1", 1)
+		Must(err)
+		old, err := m.Connect("m1", "m2", 1)
+		Must(err)
+		g := tp.graphOf(alive)
+		rec := map[string]interface{}{"nodes": 3, "events": []string{"silent crash of m2", "restart m2, redial every 150 ms", "old session of m1 ends"}}
+		if !WaitFor(12*consts.RouteUpdate+time.Second, func() bool { return meshAgrees(m, g, alive, nil) }) {
+			im.Violate("line of three nodes did not converge", "mesh-not-converged", rec)
+			m.Shutdown()
+			continue
+		}
+		time.Sleep(time.Duration(5+c.Rng.Intn(10)) * consts.RouteUpdate)
+		old.EndB.SetDetached(true) // m2's end: nothing it does is seen by m1 any more
+		old.EndA.SetSilent(true)   // and nothing m1 sends arrives anywhere
+		m.StopNode("m2")
+		time.Sleep(1100 * time.Millisecond) // the epoch has one-second granularity
+		m.AddNode("m2")
+		var cur *Link
+		refused := 0
+		redial := func() {
+			if cur != nil && !cur.EndA.Closed() {
+				return
+			}
+			if cur != nil {
+				refused++
+			}
+			cur, _ = m.Connect("m1", "m2", 1)
+		}
+		t0 := time.Now()
+		for time.Since(t0) < 1200*time.Millisecond || refused < 2 {
+			redial()
+			time.Sleep(150 * time.Millisecond)
+			if time.Since(t0) > 10*time.Second {
+				break
+			}
+		}
+		_ = old.EndA.ForceClose() // the old session ends at last (keep-alive failure / idle timeout)
+		ok := WaitFor(12*consts.RouteUpdate+3*time.Second, func() bool {
+			redial()
+			return meshAgrees(m, g, alive, nil)
+		})
+		rec["refused_redials"] = refused
+		if !ok {
+			var why []string
+			meshAgrees(m, g, alive, &why)
+			im.Violate("after a silent crash and restart of an end node the link never healed / tables did not converge: "+strings.Join(why, "; "), "mesh-not-converged", rec)
+		}
+		m.Shutdown()
+		im.Hist("mesh:silent-crash-restart")
+		im.Count(fmt.Sprintf("mesh silent crash %d %v", round, rec), refused > 0)
+		if round == 0 {
 			im.Sample(rec)
 		}
 	}
